@@ -1,12 +1,13 @@
-(* C01 extension: the nesting bound of the macro replay is ONLY a bound: raising it never changes an outcome that was not
-   the overflow.  Hence the streams that end in a state with bound MACRO_FUEL end in the same state with every larger bound
-   (the real code has none), and a stream diverges for every bound iff the real recursion is unbounded. *)
+(* C01: the nesting limit of the macro replay (MAX_MACRO_NESTING) only CUTS: an outcome that is not the error
+   MacroNestingTooDeep is the outcome for every larger limit, i.e. the outcome of the code before the limit existed (which
+   behaved like "every limit").  And the old defect, stated on the same model: a macro that invokes itself reaches every
+   limit - without one the recursion does not end. *)
 From Coq Require Import ZArith NArith List Bool Lia.
 From IE Require Import Model.TermCore Model.AnsiTok.
 Import ListNotations.
 Local Open Scope Z_scope.
 
-Definition le_out (o1 o2 : outcome) : Prop := o1 = ODiverge \/ o1 = o2.
+Definition le_out (o1 o2 : outcome) : Prop := (exists d, o1 = ODeep d) \/ o1 = o2.
 Lemma le_refl : forall o, le_out o o. Proof. right; reflexivity. Qed.
 
 Lemma astep_gen_mono : forall inv1 inv2, (forall t p id, le_out (inv1 t p id) (inv2 t p id)) ->
@@ -16,41 +17,94 @@ Proof.
   destruct (st p); try apply le_refl.
   - (* SEndCsi *)
     repeat match goal with |- le_out (if ?c then _ else _) (if ?c then _ else _) => destruct c end; try apply le_refl.
-    destruct (nums p) as [|id r]; [apply le_refl|].
-    destruct (H t (dflt p) id) as [E|E]; rewrite E; [left; reflexivity|apply le_refl].
+    destruct (nums p) as [|id r]; [apply le_refl|]. apply H.
   - (* SDcsMacro *)
     repeat match goal with |- le_out (if ?c then _ else _) (if ?c then _ else _) => destruct c end; try apply le_refl.
     repeat match goal with |- le_out (match ?l with _ => _ end) (match ?l with _ => _ end) => destruct l end; try apply le_refl.
     apply H.
 Qed.
 
-Lemma feed_diverge : forall (stepf : amach -> Z -> outcome) (body : list Z), fold_left (fun acc c => match acc with
-                          | OOk m1 | OErr m1 => match stepf m1 c with OErr m2 => OOk m2 | o => o end
-                          | o => o end) body ODiverge = ODiverge.
-Proof. intros stepf body. induction body as [|c r IH]; cbn; auto. Qed.
+Lemma feed_deep : forall (stepf : amach -> Z -> outcome) (body : list Z) d, fold_left (fun acc c => match acc with
+                          | OOk m1 => match stepf m1 c with OErr m2 => OOk m2 | o => o end
+                          | o => o end) body (ODeep d) = ODeep d.
+Proof. intros stepf body d. induction body as [|c r IH]; cbn; auto. Qed.
 Lemma feed_macro_mono : forall s1 s2, (forall m c, le_out (s1 m c) (s2 m c)) ->
   forall body t0 p0, le_out (feed_macro s1 body t0 p0) (feed_macro s2 body t0 p0).
 Proof.
   intros s1 s2 H body t0 p0. unfold feed_macro. generalize (ok t0 p0) as o.
   induction body as [|c r IH]; intro o; cbn; [apply le_refl|].
-  destruct o as [m1|m1|s|]; try apply IH.
-  - destruct (H m1 c) as [E|E]; rewrite E; [left; apply feed_diverge|apply IH].
-  - destruct (H m1 c) as [E|E]; rewrite E; [left; apply feed_diverge|apply IH].
+  destruct o as [m1|m1|s|d]; try apply IH.
+  destruct (H m1 c) as [[d E]|E]; rewrite E; [left; exists d; apply feed_deep|apply IH].
 Qed.
 
 Lemma astep_mono : forall fuel m ch, le_out (astep fuel m ch) (astep (S fuel) m ch).
 Proof.
   induction fuel as [|k IH]; intros m ch.
-  - cbn [astep]. apply astep_gen_mono. intros t p id. destruct (lookup id (macros p)); [left; reflexivity|apply le_refl].
+  - cbn [astep]. apply astep_gen_mono. intros t p id. destruct (lookup id (macros p)); [left; eexists; reflexivity|apply le_refl].
   - change (astep (S k) m ch) with (astep_gen (fun t0 p0 id => match lookup id (macros p0) with None => ok t0 p0 | Some body => feed_macro (astep k) body t0 p0 end) m ch).
     change (astep (S (S k)) m ch) with (astep_gen (fun t0 p0 id => match lookup id (macros p0) with None => ok t0 p0 | Some body => feed_macro (astep (S k)) body t0 p0 end) m ch).
     apply astep_gen_mono. intros t p id. destruct (lookup id (macros p)); [|apply le_refl]. apply feed_macro_mono. exact IH.
 Qed.
-(* an outcome that is not the overflow is the outcome for every larger bound *)
-Lemma astep_fuel_irrelevant : forall k fuel m ch, astep fuel m ch <> ODiverge -> astep (fuel + k) m ch = astep fuel m ch.
+(* an outcome that is not the nesting error is the outcome for every larger limit *)
+Lemma astep_fuel_irrelevant : forall k fuel m ch, (forall d, astep fuel m ch <> ODeep d) -> astep (fuel + k) m ch = astep fuel m ch.
 Proof.
   induction k as [|k IH]; intros fuel m ch N; [rewrite Nat.add_0_r; reflexivity|].
-  rewrite Nat.add_succ_r. destruct (astep_mono (fuel + k) m ch) as [E|E].
-  - rewrite (IH fuel m ch N) in E. contradiction.
+  rewrite Nat.add_succ_r. destruct (astep_mono (fuel + k) m ch) as [[d E]|E].
+  - rewrite (IH fuel m ch N) in E. exfalso. exact (N d E).
   - rewrite <- E. apply IH. exact N.
+Qed.
+
+(* ---- the old defect on the same model: a self-invoking macro reaches every limit ------------------------------------------------ *)
+(* a character other than z never reaches the macro invoker: its outcome does not depend on the budget *)
+Lemma astep_gen_not_z : forall inv1 inv2 m ch, ch <> 122 -> astep_gen inv1 m ch = astep_gen inv2 m ch.
+Proof.
+  intros inv1 inv2 [t p] ch N. unfold astep_gen. cbn [tm ps]. destruct (Z.eqb_spec ch 122) as [E|_]; [contradiction|].
+  destruct (st p); reflexivity.
+Qed.
+Lemma astep_not_z : forall k m ch, ch <> 122 -> astep k m ch = astep 0 m ch.
+Proof. intros k m ch N. destruct k; [reflexivity|]. cbn [astep]. apply astep_gen_not_z. exact N. Qed.
+Lemma feed_macro_ext_in : forall (s1 s2 : amach -> Z -> outcome) body, (forall m c, In c body -> s1 m c = s2 m c) ->
+  forall t0 p0, feed_macro s1 body t0 p0 = feed_macro s2 body t0 p0.
+Proof.
+  intros s1 s2 body H t0 p0. unfold feed_macro. generalize (ok t0 p0) as o.
+  induction body as [|c r IH]; intro o; cbn [fold_left]; [reflexivity|].
+  rewrite IH by (intros m c' Hin; apply H; right; exact Hin).
+  destruct o as [m1|m1|s|d]; try reflexivity. rewrite (H m1 c (or_introl eq_refl)). reflexivity.
+Qed.
+Lemma feed_macro_snoc : forall stepf pre c t0 p0,
+  feed_macro stepf (pre ++ [c]) t0 p0 =
+  match feed_macro stepf pre t0 p0 with OOk m1 => match stepf m1 c with OErr m2 => OOk m2 | o => o end | o => o end.
+Proof. intros. unfold feed_macro. rewrite fold_left_app. cbn [fold_left]. destruct (fold_left _ pre (ok t0 p0)); reflexivity. Qed.
+(* `CSI id * z` (the state is EndCSI('*') with a parameter): print_char is the invocation of macro id from state Default *)
+Lemma astep_gen_invoke : forall inv m id r, st (ps m) = SEndCsi 42 -> nums (ps m) = id :: r ->
+  astep_gen inv m 122 = inv (tm m) (dflt (ps m)) id.
+Proof. intros inv [t p] id r H1 H2. cbn [tm ps] in *. unfold astep_gen. cbn [tm ps]. rewrite H1, H2. reflexivity. Qed.
+
+(* ESC P 1;0;1!z 1B5B312A7A ESC \  defines macro 1 = `ESC [ 1 * z`;  then  ESC [ 1 *  : the next character z invokes it *)
+Definition SELF_DEF : list Z := [27; 80; 49; 59; 48; 59; 49; 33; 122; 49; 66; 53; 66; 51; 49; 50; 65; 55; 65; 27; 92].
+Definition SELF_BODY : list Z := [27; 91; 49; 42; 122].
+Definition feed0 (m : amach) (cs : list Z) : amach :=
+  fold_left (fun a c => match astep 0 a c with OOk a1 | OErr a1 | ODeep a1 => a1 | OPanic _ => a end) cs m.
+Definition self_state : amach := feed0 (ansi_init 0 false 80 25) (SELF_DEF ++ [27; 91; 49; 42]).
+Definition self_after : amach := mkA (tm self_state) (dflt (ps self_state)).
+Lemma self_state_facts :
+  st (ps self_state) = SEndCsi 42 /\ nums (ps self_state) = [1] /\ lookup 1 (macros (ps self_after)) = Some SELF_BODY /\
+  feed_macro (astep 0) [27; 91; 49; 42] (tm self_state) (dflt (ps self_state)) = OOk self_state.
+Proof. vm_compute. repeat split; reflexivity. Qed.
+(* whatever the limit n: the invocation nests n deep and ends in the nesting error (with no limit it would not end at all:
+   the stack overflow of the code before the fix) *)
+Lemma macro_self_reaches_every_limit : forall n, astep n self_state 122 = ODeep self_after.
+Proof.
+  destruct self_state_facts as (F1 & F2 & F3 & F4).
+  assert (U : forall k, astep k self_state 122 =
+                        match lookup 1 (macros (ps self_after)) with
+                        | None => ok (tm self_state) (dflt (ps self_state))
+                        | Some body => match k with O => ODeep self_after | S k' => feed_macro (astep k') body (tm self_state) (dflt (ps self_state)) end
+                        end).
+  { intro k. destruct k; cbn [astep]; rewrite (astep_gen_invoke _ self_state 1 [] F1 F2); reflexivity. }
+  induction n as [|k IH]; rewrite U, F3; [reflexivity|].
+  change SELF_BODY with ([27; 91; 49; 42] ++ [122]). rewrite feed_macro_snoc.
+  rewrite (feed_macro_ext_in (astep k) (astep 0) [27; 91; 49; 42]).
+  - rewrite F4, IH. reflexivity.
+  - intros m c Hin. apply astep_not_z. cbn in Hin. lia.
 Qed.
